@@ -71,7 +71,7 @@ def gen_source_unit(sc, sidecar_path, repo):
         for st in stmts[:-1]:
             a = rxprep._alias(st) if st and st[0].is_id('let') else None
             txt = src[st[0].start:st[-1].end]
-            if not (st and st[0].is_id('let') and re.fullmatch(r'let\s+\w+\s*=\s*Arc::clone\(&self\.\w+\)', re.sub(r'\s+', ' ', txt).strip().replace('( &', '(&'))):
+            if not (st and st[0].is_id('let') and re.fullmatch(r'let\s+(\w+)\s*=\s*(Arc::clone\(&self\.\w+\)|self\.\1\.clone\(\))', re.sub(r'\s+', ' ', txt).strip().replace('( &', '(&'))):
                 sk_problems.append('unrecognised statement before Observable::create: `%s`' % txt)
     if 'only_stmt' in sc:
         inner = rxprep.split_statements(cl.body[0].kids) if len(cl.body) == 1 and cl.body[0].is_group('{') else []
@@ -91,7 +91,7 @@ def gen_source_unit(sc, sidecar_path, repo):
         return t.replace('$s', pname)
     req = ['old(%s).wf()' % pname] + [subst(x) for x in sc.get('requires', [])]
     ens = [subst(x) for x in sc.get('ensures', [])]
-    body_txt = insert_loop_invariants(ex.text, [subst(x) for x in sc.get('invariants', [])], sc.get('for_names'))
+    body_txt = insert_loop_invariants(ex.text, [subst(x) for x in sc.get('invariants', [])], sc.get('for_names'), sc.get('loop_kinds'))
     fn_name = '%s_source' % op
     header = '// extracted: %s chars %d..%d (line %d) sha256=%s\n// replacements: %s\n' % (
         sc['file'], ex.span[0], ex.span[1], rxprep.line_of(src, ex.span[0]), ex.sha256, json.dumps(ex.replacements))
@@ -103,16 +103,25 @@ def gen_source_unit(sc, sidecar_path, repo):
         f += '    proof { %s }\n' % subst(sc['proof'])
     f += '}\n'
     twin = 'fn %s_twin%s(%s)\n    requires\n%s    ensures false,\n{\n}\n' % (fn_name, sc.get('generics', ''), ', '.join(params), _fmt_list(req))
+    fn_names = [fn_name]
+    if sc.get('c06_ensures'):
+        # second obligation over the same extracted text (C06, producer side), with its own loop invariants: the downstream may end
+        # the subscription at any emission (`quits` unconstrained)
+        body6 = insert_loop_invariants(ex.text, [subst(x) for x in sc.get('c06_invariants', [])], sc.get('for_names'), sc.get('loop_kinds'))
+        f += '\n' + header + ''.join(a + '\n' for a in sc.get('fn_attrs', [])) + 'fn %s_c06%s(%s)\n    requires\n%s    ensures\n%s{\n' % (
+            fn_name, sc.get('generics', ''), ', '.join(params), _fmt_list(req), _fmt_list([subst(x) for x in sc['c06_ensures']]))
+        f += '    let _unit: () = /*BEGIN-EXTRACTED*/ %s /*END-EXTRACTED*/;\n}\n' % body6
+        fn_names.append(fn_name + '_c06')
     prelude = open(os.path.join(VERIF, 'models', 'prelude.rs')).read()
     text = prelude + '\nverus! {\n// ---- specification (contracts/%s) ----\n%s\n// ---- extracted from /repo ----\n%s\n} // verus!\nfn main() {}\n' % (
         os.path.basename(sidecar_path), sc.get('spec', ''), f)
     twin_text = prelude + '\nverus! {\n%s\n%s\n} // verus!\nfn main() {}\n' % (sc.get('spec', ''), twin)
-    meta = [{'fn': fn_name, 'file': sc['file'], 'line': rxprep.line_of(src, ex.span[0]), 'span': list(ex.span),
-             'sha256': ex.sha256, 'replacements': ex.replacements, 'loops': ex.loops}]
+    meta = [{'fn': n, 'file': sc['file'], 'line': rxprep.line_of(src, ex.span[0]), 'span': list(ex.span),
+             'sha256': ex.sha256, 'replacements': ex.replacements, 'loops': ex.loops} for n in fn_names]
     return {'op': op, 'text': text, 'twins': twin_text, 'facts': {'create_param': pname}, 'skeleton_problems': sk_problems,
             'definite_facts': {'work_at_subscription_time': (eager_call is None, 'the captured function `%s` is called when the observable is BUILT, outside the closure passed to Observable::create: its result is shared by every subscription instead of being computed per subscription' % eager_call)},
             'outer_cells': [], 'extracted': meta, 'props': sc.get('props', []), 'known_fail': {},
-            'fn_names': [fn_name], 'twin_names': [fn_name + '_twin']}
+            'fn_names': fn_names, 'twin_names': [fn_name + '_twin']}
 
 
 def gen_multi_unit(sc, sidecar_path, repo):
@@ -208,7 +217,7 @@ def gen_multi_unit(sc, sidecar_path, repo):
             params += ['Ghost(h): Ghost<%s>' % hist_t] + list(extra_params or []) + [subst(g) for g in sc.get('ghost_params', [])]
         req = ['old(sctl).wf()'] + ([] if is_helper else [subst(x) for x in sc.get('requires_all', [])]) + [subst(x) for x in hc.get('requires', [])]
         ens = ['step_safe(old(sctl), final(sctl))'] + [subst(x) for x in hc.get('ensures', [])]
-        body_txt = insert_loop_invariants(ex.text, [subst(x) for x in hc.get('invariants', [])], hc.get('for_names'))
+        body_txt = insert_loop_invariants(ex.text, [subst(x) for x in hc.get('invariants', [])], hc.get('for_names'), hc.get('loop_kinds'))
         header = '// extracted: %s chars %d..%d (line %d) sha256=%s\n// replacements: %s\n' % (
             sc['file'], ex.span[0], ex.span[1], rxprep.line_of(src, ex.span[0]), ex.sha256, json.dumps(ex.replacements))
         ret = hc.get('returns')
@@ -546,7 +555,7 @@ def gen_unit(sidecar_path: str, repo: str) -> dict:
                    'old(sctl).sub@ && !old(sctl).quits@ ==> final(sctl).out@ == %s' % dc]
         ens += hc.get('ensures', [])
         body = ex.text
-        body = insert_loop_invariants(body, hc.get('invariants', []), hc.get('for_names'))
+        body = insert_loop_invariants(body, hc.get('invariants', []), hc.get('for_names'), hc.get('loop_kinds'))
         pre = hc.get('proof_pre', '')
         post = hc.get('proof', '')
         fn_name = '%s_%s' % (op, which)
@@ -599,7 +608,7 @@ def gen_unit(sidecar_path: str, repo: str) -> dict:
         ptys = hc['param_types']
         params += ['%s: %s' % (pn, ptys[k]) for k, (pn, _pt) in enumerate(ex.params)]
         params += hc.get('ghost_params', [])
-        body = insert_loop_invariants(ex.text, hc.get('invariants', []), hc.get('for_names'))
+        body = insert_loop_invariants(ex.text, hc.get('invariants', []), hc.get('for_names'), hc.get('loop_kinds'))
         fn_name = '%s_%s' % (op, hname)
         header = '// extracted helper closure: %s chars %d..%d (line %d) sha256=%s\n// replacements: %s\n' % (
             sc['file'], ex.span[0], ex.span[1], rxprep.line_of(src, ex.span[0]), ex.sha256, json.dumps(ex.replacements))
@@ -660,14 +669,20 @@ def gen_unit(sidecar_path: str, repo: str) -> dict:
     for extra in sc.get('models', []):
         twin_text += '\n' + open(os.path.join(VERIF, 'models', extra)).read()
     twin_text += '\nverus! {\n%s\n%s\n} // verus!\nfn main() {}\n' % (sc.get('spec', ''), '\n'.join(twins))
-    return {'op': op, 'text': text, 'twins': twin_text, 'facts': facts, 'skeleton_problems': sk_problems,
+    definite = {}
+    if kind == 'single' and sc.get('allow_prologue'):
+        definite['wiring_guarded_by_is_subscribed'] = (
+            bool(sk.guarded_by_is_subscribed),
+            'the operator emits before it wires its source (prologue %r) but the wiring is not guarded by `if %s.is_subscribed()`: a subscriber that ended during the prologue still causes the source to be subscribed' % (sk.prologue, sk.create_param),
+            ['C06'])
+    return {'op': op, 'text': text, 'twins': twin_text, 'facts': facts, 'skeleton_problems': sk_problems, 'definite_facts': definite,
             'outer_cells': outer, 'extracted': extracted_meta, 'props': sc.get('props', []),
             'known_fail': sc.get('known_fail', {}),
             'fn_names': [m['fn'] for m in extracted_meta] + (['%s_init' % op] if init_fn else []),
             'twin_names': [m['fn'] + '_twin' for m in extracted_meta if not m['fn'].endswith('_c06')]}
 
 
-def insert_loop_invariants(body: str, invs: List[str], for_names: List[str] = None) -> str:
+def insert_loop_invariants(body: str, invs: List[str], for_names: List[str] = None, kinds: List[str] = None) -> str:
     """R5: the k-th loop (`for`/`while`/`loop` keyword, textual order) gets invs[k] inserted before its body brace; a `for` loop
     may additionally get a ghost iterator name (`for x in NAME: expr`) so that the invariant can speak about progress"""
     if not invs and not for_names:
@@ -685,6 +700,12 @@ def insert_loop_invariants(body: str, invs: List[str], for_names: List[str] = No
                     loops.append((t.start, parent[j].start, in_end))
                     break
     loops.sort()
+    if kinds is not None:
+        got = [body[kw:].split(None, 1)[0].split('{')[0] for kw, _, _ in loops]
+        if got != list(kinds):
+            # the loop invariants of the sidecar are tied to the loop structure they were written for; a restructured loop is a lost
+            # anchor (undecided), not a failed proof
+            raise UnitError('anchor', 'loop structure changed: the contract has invariants for loops %r, the code has %r' % (list(kinds), got))
     edits = []
     for k, (kw, brace, in_end) in enumerate(loops):
         if invs and k < len(invs) and invs[k]:
